@@ -263,6 +263,11 @@ type SexpArray struct {
 	// typing: Type() is running for this array (an array can contain
 	// itself, directly or through other arrays, as its first element).
 	typing bool
+
+	// used is shared by the arrays that (append ...) grew in place on
+	// one backing array, and counts the slots of that backing array
+	// already handed out. See appendNoAlias.
+	used *int
 }
 
 func (r *SexpArray) Type() *RegisteredType {
